@@ -724,6 +724,105 @@ def rule_adopt_write(chk, prog, rid='C05.R5'):
     chk.floor(rid, 'adoption sites', n, 3)
 
 
+def rule_r6(chk, prog):
+    """A verdict belongs to the candidate it was computed for only if no
+    other process can overwrite the file between write and run (shared with
+    C01.R4)."""
+    from . import c01
+    sub = Check('C01', 'other', 'quick', [], [])
+    chk.guard(c01.rule_r4, sub, prog)
+    chk.adopt('C05.R6', 'the candidate file is private to the checking '
+              'process and complete before the command starts (shared with '
+              'C01.R4): a parallel check cannot be judged on another '
+              "worker's candidate", sub)
+
+
+def rule_r7(chk, prog):
+    chk.rule('C05.R7', 'ddmin: what a granularity round returns (the input '
+             'after all adoptions of the round) is what the next round, the '
+             'next mutator and the caller continue with')
+    dm = prog.mod('strategy_ddmin')
+    f = dm.func('_apply_mutator')
+    where = 'strategy_ddmin._apply_mutator'
+    cfg = cfg_of(f)
+    RD = reaching_defs(cfg, params_of(f))
+    loops = [l for l in walk_no_nested(f) if isinstance(l, ast.While)]
+    if len(loops) != 1:
+        raise AnalysisError('_apply_mutator: granularity loop not found')
+    loop = loops[0]
+    # the round result: value of the call of the chosen check function on
+    # the task generator (a name bound to TaskGenerator(...))
+    gens = {st.targets[0].id for st in ast.walk(f)
+            if isinstance(st, ast.Assign) and isinstance(
+                st.targets[0], ast.Name) and isinstance(
+                    st.value, ast.Call) and call_name(
+                        st.value) == 'TaskGenerator'}
+    rounds = [st for st in ast.walk(loop) if isinstance(st, ast.Assign)
+              and isinstance(st.value, ast.Call) and isinstance(
+                  st.value.func, ast.Name) and len(st.value.args) >= 1
+              and any(isinstance(a, ast.Name) and a.id in gens
+                      for a in st.value.args)]
+    chk.floor('C05.R7', 'round calls in _apply_mutator', len(rounds), 1)
+
+    def derived(name, node, depth=0):
+        """every definition of ``name`` reaching ``node`` is the round
+        result or a re-duplication of it"""
+        ds = (RD.get(node) or {}).get(name) or ()
+        if not ds or depth > 4:
+            return False
+        for d in ds:
+            if d == 'param':
+                return False
+            a = d.ast
+            if not isinstance(a, ast.Assign):
+                return False
+            if a in rounds:
+                continue
+            v = a.value
+            if isinstance(v, ast.Call) and (call_name(v) or '').endswith(
+                    'reduplicate') and v.args and isinstance(
+                        v.args[0], ast.Name):
+                if derived(v.args[0].id, d, depth + 1):
+                    continue
+            return False
+        return True
+
+    n = 0
+    for c in calls_in(loop):
+        if call_name(c) == 'TaskGenerator' and c.args and isinstance(
+                c.args[0], ast.Name):
+            n += 1
+            node = expr_owner_node(cfg, c)
+            chk.check('C05.R7', where, c, derived(c.args[0].id, node),
+                      'the generator of the next round can be built from '
+                      'an input that is not the result of the round just '
+                      'finished: adoptions of that round are dropped, the '
+                      'next write undoes progress (the chain is broken)',
+                      loc=dm.loc(c), nontrivial=True)
+    for r in walk_no_nested(f):
+        if isinstance(r, ast.Return) and isinstance(r.value, ast.Tuple) and \
+                isinstance(r.value.elts[0], ast.Name):
+            n += 1
+            node = cfg.node_of[id(r)]
+            nm = r.value.elts[0].id
+            ds = (RD.get(node) or {}).get(nm) or ()
+            # zero rounds (gran == 0 from the start) return the parameter
+            ok = all(d == 'param' or derived(nm, node) for d in ds) and (
+                derived(nm, node) or all(d == 'param' for d in ds)
+                or any(d == 'param' for d in ds))
+            # every non-parameter definition must be a round result
+            ok = all(
+                d == 'param' or (isinstance(d.ast, ast.Assign) and (
+                    d.ast in rounds or (isinstance(d.ast.value, ast.Call)
+                                        and (call_name(d.ast.value) or
+                                             '').endswith('reduplicate'))))
+                for d in ds)
+            chk.check('C05.R7', where, r, ok,
+                      'the input returned to the caller is not the result '
+                      'of the last round', loc=dm.loc(r), nontrivial=True)
+    chk.floor('C05.R7', 'continuations of a round', n, 2)
+
+
 def run(tier):
     prog = Program()
     chk = Check(
@@ -749,6 +848,8 @@ def run(tier):
     chk.guard(rule_r3, chk, prog)
     chk.guard(rule_r4, chk, prog)
     chk.guard(rule_adopt_write, chk, prog)
+    chk.guard(rule_r6, chk, prog)
+    chk.guard(rule_r7, chk, prog)
     extra = None
     if tier == 'thorough':
         from .. import selftest
